@@ -38,6 +38,7 @@ func init() {
 		opt.Hooks = 1.0
 		opt.Explicit = 0.3
 		opt.HookReuse = 0.2
+		opt.HookGenerated = 0.08
 		opt.CrossConv = 0.3
 		if err := c10AliasedHook(r); err != nil {
 			return err
